@@ -25,6 +25,7 @@ structure Holder where
   acquired : Nat := 0
   cancelled : Bool := false
   returned : Bool := false
+  csc : Nat → Bool := fun _ => false   -- g.csc[i] (capacity 1): an invalidation of key i arrived since the last drain
 
 /-- a WithContext caller between attempts (each attempt is a fresh holder with a fresh value) -/
 structure Waiter where
@@ -82,6 +83,11 @@ wake nobody — see `Sib` below and `Rv.C34.noloop_sibling_lost_wakeup_witness`.
 def notify (ws : Nat → Waiter) (i : Nat) : Nat → Waiter :=
   fun w => if (ws w).parked = true ∧ (ws w).blocked = i then { ws w with token := true } else ws w
 
+/-- a third party wrote or removed key i: every holder whose monitor of key i runs (its acquire
+script read the key, so its connection tracks it) gets the notification in `g.csc[i]` -/
+def signalCsc (hs : Nat → Holder) (i : Nat) : Nat → Holder :=
+  fun v => if (hs v).mons i = .running then { hs v with csc := upd (hs v).csc i true } else hs v
+
 inductive Ev where
   | acq (v i : Nat)          -- acquire script of holder v on key i (monitor i starts)
   | acqErr (v i : Nat)       -- the acquire script of v on key i fails with a server/network error (timeout):
@@ -108,9 +114,12 @@ def next (s : Sys) : Ev → Sys
   | .acq v i =>
     let h := s.hs v
     if h.mons i = .idle ∧ i < s.n then
+      -- `select { case <-ch: default: }` drains a stale notification BEFORE the acquire script is sent: what
+      -- arrives after the script ran (between the server's execution and the reply) stays for the monitor
       match acqScript v (s.regs i) with
       | (r, true) => { s with regs := upd s.regs i r,
-                              hs := upd s.hs v { h with mons := upd h.mons i .running, acquired := h.acquired + 1 } }
+                              hs := upd s.hs v { h with mons := upd h.mons i .running, acquired := h.acquired + 1,
+                                                        csc := upd h.csc i false } }
       | (_, false) => setH s v (exitMon s.m s.n h i)
     else s
   | .acqErr v i =>
@@ -154,9 +163,11 @@ def next (s : Sys) : Ev → Sys
       { s with regs := upd s.regs i (some v), ws := notify s.ws i,
                hs := upd s.hs v { h with mons := upd h.mons i .running, acquired := h.acquired + 1 } }
     else s
-  | .extdel i => { s with regs := upd s.regs i none, ws := if s.regs i = none then s.ws else notify s.ws i }
-  | .expire i => { s with regs := upd s.regs i none, ws := if s.regs i = none then s.ws else notify s.ws i }
-  | .extset i x => { s with regs := upd s.regs i (some x), ws := notify s.ws i }
+  | .extdel i => { s with regs := upd s.regs i none, ws := if s.regs i = none then s.ws else notify s.ws i,
+                          hs := signalCsc s.hs i }
+  | .expire i => { s with regs := upd s.regs i none, ws := if s.regs i = none then s.ws else notify s.ws i,
+                          hs := signalCsc s.hs i }
+  | .extset i x => { s with regs := upd s.regs i (some x), ws := notify s.ws i, hs := signalCsc s.hs i }
   | .park w i =>
     -- the refused attempt read key i (held by somebody) inside the script: tracked from now on;
     -- a token that is already in the channel stays there
